@@ -451,3 +451,9 @@ Definition ok_after_removal (h : history) (tr : N * rec) : bool :=
         | _ => true end) h
   | _ => true
   end.
+
+(* the records at which a clause fails; the check file reports these *)
+Definition bad (ok : N * rec -> bool) (h : history) : history := filter (fun tr => negb (ok tr)) h.
+Definition verdict_bad (h : history) : history :=
+  bad (ok_amo h) h ++ bad (ok_must h) h ++ bad (ok_mustnot h) h ++ bad (ok_once h) h ++
+  bad (ok_order h) h ++ bad (ok_right h) h ++ bad (ok_close h) h.
